@@ -223,7 +223,7 @@ Lemma zsymm_entry : forall s f g P Q R r,
 Proof.
   intros s f g P Q R r DF DG DR Hp. split.
   - apply zentry_ok_other; intros o; destruct o; discriminate.
-  - split; [|discriminate]. intros _. exists P, Q. split; [exact DF|]. split; [exact DG|].
+  - intros _. exists P, Q. split; [exact DF|]. split; [exact DG|].
     apply (zden_ext s r R _ DR Hp).
 Qed.
 
@@ -273,7 +273,7 @@ Proof.
   apply (zresultB_ext C cget s _ (pxor P' Q') _ Hpq). clear Hpq P Q f g.
   destruct (cget c zcode_symm [f'; g'] []) as [h|] eqn:Ec.
   - (* cache hit *)
-    destruct (O _ _ _ _ Ec) as [_ Ox]. simpl in Ox. destruct Ox as [Ox _].
+    destruct (O _ _ _ _ Ec) as [_ Ox]. simpl in Ox.
     destruct (Ox eq_refl) as (P0 & Q0 & D0 & D0' & Dh).
     apply zresultB_here; auto.
     apply (zden_ext s h _ _ Dh). apply pxor_ext.
